@@ -10,7 +10,7 @@ import re
 
 from vcheck import Machinery, pmap
 
-TOK = r'''(?P<SPACE>[ \x0c]+)|(?P<WORD>[ab]+)|(?P<NUM>1+)|(?P<CMT><)|"(?P<STR>[^"]*)"'''
+TOK = r'''(?P<SPACE>[ \x0c\t]+)|(?P<WORD>[ab]+)|(?P<NUM>1+)|(?P<CMT><)|"(?P<STR>[^"]*)"'''
 SPANS = {'CMT': r"(?P<END_CMT>[^>]*)>"}
 _P = {}
 
@@ -19,6 +19,10 @@ def parsers():
     if _P:
         return _P
     from ak.llparser import LLParser
+    # another language in the same process: its span token has the same name but ends at ']' (built first, never used to
+    # parse the texts of the family - the parsers below must not be affected by it)
+    _P['other-language'] = LLParser(r'''(?P<SPACE>\s+)|(?P<WORD>[a-z]+)|(?P<CMT>\[)''', span_matchers={'CMT': r"(?P<END_CMT>[^\]]*)\]"},
+                                    productions={'E': [('WORD', 'E'), ('CMT', 'E'), None]})
     _P['skip'] = LLParser(TOK, span_matchers=SPANS, productions={
         'E': [('ITEM', 'E'), None], 'ITEM': [('WORD', 'MODS'), ('NUM',), ('CMT',), ('STR',)], 'MODS': [('OPT', 'OPT2')], 'OPT': [('NUM',), None],
         'OPT2': [('STR',), None]})
